@@ -45,7 +45,12 @@ type replayFile struct {
 	Replay replaySpec `json:"replay"`
 }
 
+// askDeadline bounds one request to the model driver (the largest legitimate request, a 650 KB
+// item, takes a few seconds).
+const askDeadline = 180 * time.Second
+
 type H struct {
+	hung   bool // the driver stopped answering: do not wait for it on shutdown
 	f      lib.Flags
 	res    *lib.Result
 	drv    *lib.Driver
@@ -75,7 +80,27 @@ func (h *H) ask(line string) string {
 		h.res.Fatalf("model driver not available for request %q", clip(line)[:min(len(line), 40)])
 		return "no-driver"
 	}
-	out, err := h.drv.Ask(line)
+	type ans struct {
+		out string
+		err error
+	}
+	ch := make(chan ans, 1)
+	drv := h.drv
+	go func() {
+		o, e := drv.Ask(line)
+		ch <- ans{o, e}
+	}()
+	var out string
+	var err error
+	select {
+	case a := <-ch:
+		out, err = a.out, a.err
+	case <-time.After(askDeadline):
+		// a driver that neither answers nor dies: give it up (the reader goroutine is abandoned)
+		h.res.Fatalf("model driver did not answer within %s", askDeadline)
+		h.drv, h.hung = nil, true
+		return "driver-timeout"
+	}
 	if err != nil {
 		h.res.Fatalf("model driver died: %v", err)
 		h.drv = nil
@@ -170,7 +195,11 @@ func main() {
 				res.Fatalf("driver: %v", err)
 			} else {
 				hh.drv = drv
-				defer drv.Close()
+				defer func() {
+					if !hh.hung {
+						drv.Close()
+					}
+				}()
 			}
 			t0 := time.Now()
 			if err, panicked, stack := lib.Try(func() error { tk.run(&hh); return nil }); panicked {
